@@ -8,7 +8,11 @@ package fs
 // the hasher (assumed; `new` is a function-typed field).
 //@ assume func (PathHasher).Size
 //@   pure
-//@ assume func (PathHasher).AlgoName
+//@ func (PathHasher).AlgoName
+//@   property C09
+//@   modifies nothing
+//@   opt nopanic=off
+//@   opt panics=allowed
 //@   pure
 //@ assume func (PathHasher).NewHash
 //@   pure
@@ -16,9 +20,17 @@ package fs
 // File-system reads: functions of the path for the duration of one decision (the world is not modelled).
 //@ assume func (PathHasher).Hash
 //@   pure
-//@ assume func PathExists
+//@ func PathExists
+//@   property C09
+//@   modifies nothing
+//@   opt nopanic=off
+//@   opt panics=allowed
 //@   pure
-//@ assume func FileExists
+//@ func FileExists
+//@   property C09
+//@   modifies nothing
+//@   opt nopanic=off
+//@   opt panics=allowed
 //@   pure
 // File-system writes used by callers under contract: opaque.
 //@ assume func (PathHasher).MoveHash
@@ -28,10 +40,16 @@ package fs
 //@ assume func (PathHasher).SetHash
 //@   modifies hasher.memo
 // (they change the file system, which is not part of the modelled state, and no Go heap)
-//@ assume func RemoveAll
+//@ func RemoveAll
+//@   property C09
 //@   modifies nothing
-//@ assume func RecursiveCopy
+//@   opt nopanic=off
+//@   opt panics=allowed
+//@ func RecursiveCopy
+//@   property C09
 //@   modifies nothing
+//@   opt nopanic=off
+//@   opt panics=allowed
 
 // ---------------------------------------------------------------------------------------------
 // glob() filtering (C21)
@@ -61,7 +79,11 @@ package fs
 // Excludes: a match is excluded iff SOME exclude applies to it — either as a path prefix, or through its
 // matcher, which works on the base name exactly when the match has a slash and that exclude has none. The
 // mode must be chosen per exclude (it must not leak from one exclude to the next).
-//@ assume func patternToMatcher
+//@ func patternToMatcher
+//@   property C09
+//@   modifies nothing
+//@   opt nopanic=off
+//@   opt panics=allowed
 //@   pure
 //@ assume func (matcher).Match
 //@   pure
@@ -93,7 +115,11 @@ package fs
 //
 // The directory walk of a glob: a BUILD file — whatever kind of directory entry it is — makes its directory
 // a sub-package (recorded and not descended into), unless it is the BUILD file of the globbed package itself.
-//@ assume func isBuildFile
+//@ func isBuildFile
+//@   property C09
+//@   modifies nothing
+//@   opt nopanic=off
+//@   opt panics=allowed
 //@   pure
 //@ func (Globber).walkDir.lit#1
 //@   requires globber != nil && d != nil
@@ -103,8 +129,11 @@ package fs
 //@      dir.subPackages[len(dir.subPackages) - 1] == filepath.Dir(path)
 //@   ensures output_tree_skipped [C21]: !(isBuildFile(globber.buildFileNames, path) && filepath.Dir(path) != rootPath) && \
 //@      d.Name() == "plz-out" && rootPath == "." ==> result == filepath.SkipDir
-//@ assume func RecursiveLink
+//@ func RecursiveLink
+//@   property C09
 //@   modifies nothing
+//@   opt nopanic=off
+//@   opt panics=allowed
 
 // ---------------------------------------------------------------------------------------------
 // Atomic file replacement (C32): WriteFile
@@ -125,9 +154,17 @@ package fs
 //@   ensures success_means_renamed [C32]: result == nil ==> called("renameFile")
 
 // Reading a stored attribute is a function of the file system, which is fixed within one decision.
-//@ assume func ReadAttr
+//@ func ReadAttr
+//@   property C09
+//@   modifies nothing
+//@   opt nopanic=off
+//@   opt panics=allowed
 //@   pure
-//@ assume func ReadAttrFile
+//@ func ReadAttrFile
+//@   property C09
+//@   modifies nothing
+//@   opt nopanic=off
+//@   opt panics=allowed
 //@   pure
 
 // For callers, a glob is a function of the file system (fixed within one decision) and its arguments.
@@ -209,16 +246,28 @@ package fs
 //@   ensures symlink_leaves_a_mark [C09]: result == nil && mode.IsSymlink() ==> collected(W, string(boolTrueHashValue))
 //@   ensures name_and_position_are_hashed [C09 except=anyEntry]: result == nil ==> collected(W, p[len(path):])
 //@   callsite os.Readlink trackresult target string: result0
+//@   callsite os.Readlink trackresult rlerr error: result1
+//@   callsite (PathHasher).fileHash trackresult fherr error: result
+//@   ensures only_real_errors_stop_the_walk [C09]: result != nil ==> (called("os.Readlink") && result == rlerr) || (called("(PathHasher).fileHash") && result == fherr)
 //@   ensures symlink_target_is_hashed [C09 except=anyEntry]: result == nil && mode.IsSymlink() ==> collected(W, target)
 
 // PathHasher.hash, outside the directory walk. A stored hash is read from the path ITSELF (LGet: never through
 // a symlink, or a link would hash like its target); for a top-level symlink the target's CONTENTS are hashed
 // only when the link leaves the repository — a link inside the repository is hashed by its (relative) target
 // name, so two links to different files with equal contents differ.
-//@ assume func (PathHasher).ensureRelative
+//@ func (PathHasher).ensureRelative
+//@   property C09
+//@   modifies nothing
+//@   opt nopanic=off
+//@   opt panics=allowed
 //@   pure
 //@ assume func (PathHasher).timestampHash
-//@ assume func (PathHasher).storeHash
+// storeHash: a hash is recorded only ON an output file (a source the user edits in place must never carry one).
+//@ func (PathHasher).storeHash
+//@   requires hasher != nil
+//@   opt nopanic=off
+//@   callsite xattr.LSet only_on_outputs [C09]: hasPrefix(path, "plz-out/") && arg_path == path
+//@   callsite xattr.Set never_through_a_link [C09]: false
 //@ func (PathHasher).hash
 //@   requires hasher != nil
 //@   opt nopanic=off
@@ -228,5 +277,6 @@ package fs
 //@   callsite os.Readlink trackresult linkdest string: result0
 //@   callsite xattr.Get never_through_a_link [C09]: false
 //@   callsite xattr.LGet of_the_path_itself [C09]: arg_path == path && arg_name == hasher.xattrName
+//@   callsite xattr.LGet a_stored_hash_is_trusted_only_for_outputs [C09]: read && hasher.useXattrs && hasPrefix(path, "plz-out/")
 //@   callsite (PathHasher).fileHash contents_only_for_links_that_leave_the_repo [C09]: arg_filename == path && \
 //@      (called("os.Readlink") ==> !((hasher.ensureRelative(linkdest) != linkdest || !filepath.IsAbs(linkdest)) && !filepath.IsAbs(path)))
